@@ -78,6 +78,7 @@ def check_find_valid_neighbors(ctx, report, status, ks, rng, n):
         ed = pyloops.Arr([[v for v in r] for r in disp], (rows, cols))
         ef = pyloops.Arr([list(r) for r in flag], (rows, cols))
         edirs = pyloops.Arr([list(r) for r in dirs], (len(dirs), 2))
+        ef.integer = edirs.integer = True
         for r in range(rows):
             for c in range(cols):
                 real = [canon(x) for x in find_valid_neighbors(dn, d, f, c, r)]
@@ -87,16 +88,25 @@ def check_find_valid_neighbors(ctx, report, status, ks, rng, n):
                     mine = [exact_val(v) for v in vals] if res == "ok" else res
                 except Exception as exc:  # pylint: disable=broad-except
                     mine = f"{type(exc).__name__}: {exc}"
-                if mine != real:
+                try:  # the independent imperative reading of the whole function
+                    whole = pyloops_ext.interpret_ext(k.fn, [edirs, ed, ef, c, r], k.numpy_names, k.consts, k.functions)
+                    whole = [exact_val(v) for v in whole.data]
+                except Exception as exc:  # pylint: disable=broad-except
+                    whole = f"{type(exc).__name__}: {exc}"
+                if mine != real or whole != real:
                     problems += 1
                     if problems <= 3:
                         status.problem("translator", f"translated find_valid_neighbors evaluates differently from the real function on "
-                                       f"disp={disp} valid={flag} dirs={dirs} row={c} col={r}", f"real={real} evaluator={mine}")
+                                       f"disp={disp} valid={flag} dirs={dirs} row={c} col={r}", f"real={real} evaluator={mine} interpret={whole}")
     return problems
 
 
 PIXEL_KERNELS = {  # Lean name -> (class, method, cell tolerated on a tie of |d| with opposite signs: numba's argsort is not stable)
     "occlusionSgmPx": ("SgmInterpolation", "interpolate_occlusion_sgm", True),
+    "mismatchSgmPx": ("SgmInterpolation", "interpolate_mismatch_sgm", False),
+    "occlusionMcCnnPx": ("McCnnInterpolation", "interpolate_occlusion_mc_cnn", False),
+    "mismatchMcCnnPx": ("McCnnInterpolation", "interpolate_mismatch_mc_cnn", False),
+    "nodataSgmPx": (None, "interpolate_nodata_sgm", False),  # module-level function of pandora/img_tools.py
 }
 
 
@@ -121,15 +131,50 @@ def check_pixel_kernels(ctx, report, status, ks, rng, n):
         if name not in ks:
             continue
         k = ks[name]
-        real_fn = getattr(getattr(mod, cls), meth)
+        if cls is None:
+            import pandora.img_tools as img_tools
+            real_fn = getattr(img_tools, meth)
+        else:
+            real_fn = getattr(getattr(mod, cls), meth)
         for _ in range(n):
             disp, flag = flagged_map(rng)
             rows, cols = len(flag), len(flag[0])
             d, f = np_maps(disp, flag)
-            od, ov = real_fn(d, f)
             ed = pyloops.Arr([[v for v in r] for r in disp], (rows, cols))
             ef = pyloops.Arr([list(r) for r in flag], (rows, cols))
+            ef.integer = True
             report.count("kernel_" + meth + "_calls")
+            # the independent imperative reading of the WHOLE function (mutable arrays, real loops): pyloops_ext.interpret_ext
+            try:
+                wd, wv = pyloops_ext.interpret_ext(k.fn, [pyloops.Arr([list(r) for r in disp], (rows, cols)), ef],
+                                                   k.numpy_names, k.consts, k.functions)
+                whole = [[[exact_val(wd.data[r][c]), int(wv.data[r][c])] for c in range(cols)] for r in range(rows)]
+            except Exception as exc:  # pylint: disable=broad-except
+                whole = f"{type(exc).__name__}: {exc}"
+            try:
+                od, ov = real_fn(d, f)
+            except Exception as exc:  # pylint: disable=broad-except
+                if not isinstance(whole, str):
+                    problems += 1
+                    if problems <= 3:
+                        status.problem("translator", f"the real {meth} raised {type(exc).__name__} on disp={disp} valid={flag} but the "
+                                       "interpreter of its source did not", str(exc)[:200])
+                # the compiled kernel raised (e.g. numpy's argmax of an empty mask): the translated function must then be
+                # undefined (`Res.outOfBounds`) at some pixel of this map — otherwise the translator misreads the source
+                undefined = False
+                for r in range(rows):
+                    for c in range(cols):
+                        try:
+                            undefined = undefined or pyloops_ext.evaluate_at(k, [ed, ef], r, c)[0] != "ok"
+                        except Exception:  # pylint: disable=broad-except
+                            undefined = True
+                report.count("kernel_" + meth + "_raised")
+                if not undefined:
+                    problems += 1
+                    if problems <= 3:
+                        status.problem("translator", f"the real {meth} raised {type(exc).__name__} on disp={disp} valid={flag} but its "
+                                       "translation is defined at every pixel", str(exc)[:200])
+                continue
             for r in range(rows):
                 for c in range(cols):
                     real = [canon(od[r, c]), int(ov[r, c])]
@@ -138,6 +183,13 @@ def check_pixel_kernels(ctx, report, status, ks, rng, n):
                         mine = [exact_val(vals[0]), int(vals[1])] if res == "ok" else res
                     except Exception as exc:  # pylint: disable=broad-except
                         mine = f"{type(exc).__name__}: {exc}"
+                    w = whole[r][c] if not isinstance(whole, str) else whole
+                    if w != real and not (sign_ties and isinstance(w, list) and w[1] == real[1] and "nan" not in (w[0], real[0])
+                                          and abs(w[0]) == abs(real[0])):
+                        problems += 1
+                        if problems <= 3:
+                            status.problem("translator", f"the interpreter of {meth} (whole function) differs from the real function on "
+                                           f"disp={disp} valid={flag} pixel=({r},{c})", f"real={real} interpret={w}")
                     if mine != real:
                         if sign_ties and isinstance(mine, list) and mine[1] == real[1] and "nan" not in (mine[0], real[0]) \
                                 and abs(mine[0]) == abs(real[0]):
